@@ -11,7 +11,7 @@ DESIGN_REF = '5/C17'
 TECHNIQUE = ('bounded exhaustive enumeration of item lists x queries through the real Browser (inverted index) against a naive scan of the '
              'original list, with deep snapshots of the source browser after every query, plus exhaustive chains (depth 2) of filter / '
              'merge and ordered pairs of queries on the same browser')
-RULE = ('[merges with item-less browsers that carry global variables, on either side, directly and after a filter] ' +
+RULE = ('[ordered pairs / triples of queries over metadata values with equal hashes (-1/-2, 0/2**61-1)] [merges with item-less browsers that carry global variables, on either side, directly and after a filter] ' +
         'item lists of length 0-2 over all 12 item shapes (k1 absent or in {1, "a", (1,2)}; k2 absent or in {1, "a"}) and of length 3 over '
         '6 shapes, data under "results" or under a custom data key holding unhashable data; queries = every assignment of {unset, present '
         'values, absent value} to k1 and k2, an unknown key, and include / exclude subsets of {k1, k2, kx} of total size <= 2; for each: '
